@@ -278,7 +278,7 @@ func (t *HashType) IsAssignable(o px.Type, g px.Guard) bool {
 		}
 		return t.size.IsAssignable(o.size, g) && GuardedIsAssignable(t.keyType, o.keyType, g) && GuardedIsAssignable(t.valueType, o.valueType, g)
 	case *StructType:
-		if !t.size.IsInstance3(len(o.elements)) {
+		if !t.size.IsAssignable(o.Size(), g) {
 			return false
 		}
 		for _, element := range o.elements {
